@@ -25,7 +25,9 @@ Muts == {<<"none", "p1", 1, "">>}
    \cup {<<"watcher", "p1", 1, "">>}
    \* a stage without a name is called after its task (or pipeline): clashes through defaulted names
    \cup {<<"defname", "p4", 1, w>> : w \in {"ok", "both", "explicit"}}
-   \cup {<<"cycle", "p2", 1, w>> : w \in {"1", "2", "3"}}
+   \cup {<<"cycle", "p2", 1, w>> : w \in {"1", "2", "3", "2x"}}
+   \* a stage that names a task AND a pipeline is a task stage (the task wins): naming its own pipeline is harmless
+   \cup {<<"both", "p4", 1, "">>}
 VARIABLE mut
 Init == mut \in Muts
 Next == UNCHANGED mut
@@ -38,12 +40,16 @@ Apply(m) ==
        [] k = "dep" -> upd("deps", {IF m[4] = "unknown" THEN "nosuch" ELSE OtherStage(p)})
        [] k = "dup" -> upd("name", Base.pipes[p][1].name)
        [] k = "watcher" -> [Base EXCEPT !.wtask = "nosuch"]
+       [] k = "both" -> [Base EXCEPT !.pipes["p4"][1].pipe = "p4"]
        [] k = "defname" -> (CASE m[4] = "ok" -> [Base EXCEPT !.pipes["p4"][1].name = ""]                       \* called t1: no clash
                               [] m[4] = "both" -> [Base EXCEPT !.pipes["p4"] = <<St("", "t1", "", {}), St("", "t1", "", {})>>]
                               [] OTHER -> [Base EXCEPT !.pipes["p4"] = <<St("t2", "t1", "", {}), St("", "t2", "", {})>>])
        [] k = "cycle" -> (CASE m[4] = "1" -> [Base EXCEPT !.pipes["p2"] = Append(@, St("x", "", "p2", {}))]
                             [] m[4] = "2" -> [Base EXCEPT !.pipes["p2"] = Append(@, St("x", "", "p3", {})),
                                                           !.pipes["p3"] = Append(@, St("y", "", "p2", {}))]
+                            \* a 2-cycle whose member also includes an acyclic pipeline in two stages
+                            [] m[4] = "2x" -> [Base EXCEPT !.pipes["p2"] = @ \o <<St("x", "", "p3", {}), St("u", "", "p4", {}), St("v", "", "p4", {})>>,
+                                                           !.pipes["p3"] = Append(@, St("y", "", "p2", {}))]
                             [] OTHER -> [Base EXCEPT !.pipes["p2"] = Append(@, St("x", "", "p3", {})),
                                                      !.pipes["p3"] = Append(@, St("y", "", "p1", {}))])
        [] OTHER -> Base
@@ -65,5 +71,5 @@ WellFormed(c) ==
 Expected == WellFormed(Cfg)
 Emit == PrintT(<<"REF", ToJson([mut |-> mut, cfg |-> Cfg, wellformed |-> Expected])>>)
 \* sanity of the mutation table itself: only the unmutated configuration is well formed
-OnlyBaseWellFormed == Expected <=> (mut[1] = "none" \/ (mut[1] = "defname" /\ mut[4] = "ok"))
+OnlyBaseWellFormed == Expected <=> (mut[1] \in {"none", "both"} \/ (mut[1] = "defname" /\ mut[4] = "ok"))
 =====================================================================
